@@ -65,7 +65,7 @@ def gen_show(rng):
             "speed4": rng.choice([1, 2, 4, 4, 4, 8, 16]),
             "loops": rng.choice([-1, -1, 0, 0, 1, 1, 2, 3]),
             "start": start,
-            "sync": rng.choice([0, 0, 0, 0, 8, 12, 16, 32]),           # ticks: 250, 375, 500, 1000 ms
+            "sync": rng.choice([0, 0, 0, 0, 0, 0, 0, 8, 12, 16, 32]),  # ticks: 250, 375, 500, 1000 ms
             "manual": rng.random() < 0.1,
             "running": rng.random() > 0.08,
             "prio": rng.randint(0, 3)}
@@ -80,6 +80,8 @@ def gen_sched(rng, tier, i):
         ops.append([t0, sid, "play", 0, 0])
         nops = rng.choice([0, 0, 1, 2, 3, 4, 5, 7])
         t = t0
+        if shows[sid]["sync"] and rng.random() < 0.75:
+            t += shows[sid]["sync"]          # mostly after the synchronised start (before it: recorded finding)
         for _ in range(nops):
             # on the 125 ms grid mostly (coincides with step deadlines at speed <= 1), finer sometimes
             t += rng.choice([0, 1, 2, 4, 4, 8, 8, 12, 16, 32, 48]) if rng.random() < 0.85 else rng.randint(0, 40)
@@ -239,7 +241,7 @@ def _evkw(sid):
     return {"events_when_" + k: ["c17_%d_%s" % (sid, k)] for k in EVKINDS}
 
 
-def run_sched(case):
+def run_sched(case, via="api"):
     rig, m, log = _G["rig"], _G["m"], _G["log"]
     _G["n"] += 1
     # leave the previous case behind and start on a multiple of 6 s (every sync period divides it)
@@ -268,7 +270,24 @@ def run_sched(case):
                 rig.advance(target - rig.now())
             log.append(("op", rig.now(), sid, kind))
             sh = case["shows"][sid]
-            if kind == "play":
+            if via == "player":
+                sp = m.show_controller.show_players["shows"]
+                if kind == "play":
+                    st = {"action": "play", "key": "k%d" % sid, "priority": sh["prio"], "speed": sh["speed4"] / 4.0,
+                          "start_step": sh["start"], "loops": sh["loops"], "sync_ms": sh["sync"] * 125 // 4,
+                          "manual_advance": sh["manual"], "start_running": sh["running"]}
+                    st.update({k: v[0] for k, v in _evkw(sid).items()})
+                    sp.play(sp.validate_config_entry({names[sid]: st}, "c17"), "_global", None, 0)
+                    rs = sp.instances["_global"]["show_player"]["k%d" % sid]
+                    running[sid] = rs
+                    ctx2sid[rs.context + ".light_player"] = sid
+                elif running[sid] is not None:
+                    st = {"action": kind}
+                    if kind == "update":
+                        upd_of.append(sid)
+                        st["speed"] = a / 4.0 if a else running[sid].show_config.speed
+                    sp.play(sp.validate_config_entry({"k%d" % sid: st}, "c17"), "_global", None, 0)
+            elif kind == "play":
                 rs = m.shows[names[sid]].play(priority=sh["prio"], speed=sh["speed4"] / 4.0, start_step=sh["start"],
                                               loops=sh["loops"], sync_ms=sh["sync"] * 125 // 4,
                                               manual_advance=sh["manual"], start_running=sh["running"], **_evkw(sid))
@@ -502,7 +521,8 @@ def oracle_show(case, out, sid, sh):
     req_times = {}
     for t, k, a, b in ctl:
         req_times.setdefault(t, []).append((k, a, b))
-    prev = None          # (step index, time it was executed, speed4 in force, manual in force)
+    prev = None          # (step index, time it was executed)
+    n_before = len(fails)
     ui = 0
     upd = [(t, a, b) for t, k, a, b in ctl if k == "update"]
     if any(r[3] >= len(durs) for r in markers):
@@ -536,6 +556,8 @@ def oracle_show(case, out, sid, sh):
                 if not by_request and k != (pk + 1) % len(durs):
                     fails.append({"sig": "step-order", "what": "show %d: timer ran step %d after step %d" % (sid, k, pk)})
         prev = (k, t)
+        if len(fails) > n_before:
+            break                # one schedule failure per show is enough
     # closed form for shows without any control request: k-th step at t0 + sum(preceding durations)/speed
     if not ctl and markers and not sh["manual"] and sh["running"]:
         n = len(durs)
@@ -725,11 +747,33 @@ def shrink_generic(case):
         yield dict(case, t0_ms=0)
 
 
+def gen_player(rng, tier, i):
+    """the same request sequences through the show_player (keys k<sid>): advance / step_back by one step only, no
+    manual_advance (the player's update action always passes manual_advance)"""
+    c = gen_sched(rng, tier, i)
+    for sh in c["shows"]:
+        sh["manual"] = False
+    c["ops"] = [[t, sid, k, (1 if k in ("advance", "step_back") else a), 0] for t, sid, k, a, b in c["ops"]]
+    return c
+
+
+def run_player(case):
+    return run_sched(case, via="player")
+
+
+def oracle_player(case, out):
+    # after a stop action the player forgets the key: later requests for it are not delivered, which is what the
+    # property oracle expects of a stopped show anyway
+    return oracle_sched(case, out)
+
+
 SUITES = [
     Suite("sched", gen_sched, run_sched, HDR_SCHED, coq_sched, oracle_sched, shrink_sched, nontrivial_sched,
           {"quick": 1200, "thorough": 40000}, worker_init=sched_init, describe=describe_sched, shard=150),
     Suite("generic", gen_generic, run_generic, None, None, oracle_generic, shrink_generic, lambda c, o: True,
           {"quick": 120, "thorough": 3000}, worker_init=sched_init),
+    Suite("player", gen_player, run_player, None, None, oracle_player, shrink_sched, nontrivial_sched,
+          {"quick": 400, "thorough": 10000}, worker_init=sched_init, describe=describe_sched),
 ]
 
 LEVEL_TEXT = ("Machine-checked proof (Coq) about an executable model of RunningShow, its control requests, the ownership "
